@@ -775,8 +775,8 @@ func (d *GroupExpression) Type() *Type {
 }
 
 func (d *GroupExpression) infer() {
-	if d.Type() == EMPTY_ARRAY {
-		d.Expr.(inferrer).infer()
+	if inf, ok := d.Expr.(inferrer); ok {
+		inf.infer()
 	}
 }
 
